@@ -702,7 +702,7 @@ pub proof fn lemma_lines_of_tail(v: SummaryVariable, val: VV)
 {
     match val {
         VV::S(s) => { lemma_kv_tail(name_of(v), s); }
-        VV::I(i) => { axiom_i64_text(i as i64); lemma_kv_tail(name_of(v), i64_text(i)); }
+        VV::I(i) => { lemma_i64_text(i as i64); lemma_kv_tail(name_of(v), i64_text(i)); }
         VV::A(a) => {
             let n = a.len() as int;
             assert(no_nl(a[n - 1]));
